@@ -133,4 +133,22 @@ Section Stage.
                 && (bp_anch_not_considered p || list_eqb alt_same (st_notcons before) (st_notcons after))
            else values_kept (st_crits before) before after)
      else false).
+
+  (* C07, "criteria disappear or appear only as the bias reports them": the criteria after a bias are exactly the criteria
+     before it minus the ones the report lists as omitted, plus the ones it lists as added (as sets of ids; an omission
+     hands the kept criteria on in the order of its ranking) *)
+  Definition same_id_set (l1 l2 : list string) : bool :=
+    Nat.eqb (List.length l1) (List.length l2) && nodup_str l1 && nodup_str l2
+    && forallb (fun i => mem_str i l2) l1.
+  Definition crits_as_reported (before after : state) (rep : report) : bool :=
+    let ids := fun (s : state) => map c_id (st_crits s) in
+    match rep with
+    | ROmission omitted =>
+        forallb (fun i => mem_str i (ids before)) (map c_id omitted)
+        && same_id_set (ids after) (filter (fun i => negb (mem_str i (map c_id omitted))) (ids before))
+    | RConcealment c _ _ => same_id_set (ids after) (ids before ++ [c_id c])
+    | RMixing _ _ cn _ => same_id_set (ids after) (ids before ++ [cp_id cn])
+    | RAnchoring _ _ _ (ARNew _ added) => same_id_set (ids after) (ids before ++ map (fun x => c_id (fst (fst x))) added)
+    | _ => same_id_set (ids after) (ids before)
+    end.
 End Stage.
